@@ -342,3 +342,35 @@ def gen_irregular(rng, n):
     from vfw import gen
 
     return gen.irregular(rng, n, steps=(1, 2, 59, 60, 61, 3600, 86400))
+
+
+def replay(w) -> int:
+    """./vf replay <file>: rebuild the table and config of a stream-run witness and judge it again."""
+    import json
+
+    from vfw import core as _core
+
+    print(json.dumps({k: v for k, v in w.items() if k not in ("contexts",)}, indent=1)[:3000])
+    if w.get("kind") != "stream-run":
+        return 0
+    t = w["table"]
+    tb = P.Table(t["n"], streams=t["streams"], secs=[P.T0 + s for s in t["secs_from_t0"]], with_z=t["with_z"],
+                 with_pos=t["with_pos"], with_time=t["with_time"])
+    contexts = [{"window": tuple(c["window"]), "streams": {s: [(m, tt, kw) for m, tt, kw in ts_] for s, ts_ in c["streams"].items()}}
+                for c in w["contexts"]]
+    ctx = _core.Ctx("C05", "quick", 0)
+    ctx.findings = []
+    P.install_probes()
+    scratch = P.Scratch()
+    try:
+        run_one(ctx, tb, contexts, w["frontend"], w.get("opts") or {}, scratch, "replay")
+    finally:
+        scratch.close()
+        P.remove_probes()
+    if ctx.violations:
+        for cls, v in ctx.violations.items():
+            print("STILL VIOLATED on the current tree:", cls)
+            print(json.dumps(v["witness"], indent=1)[:1500])
+        return 1
+    print("conforms on the current tree")
+    return 0
